@@ -153,6 +153,8 @@ func vpPwId(p string) int {
 		return 2
 	case "":
 		return 0
+	case "p$w":
+		return 4
 	}
 	return 3
 }
